@@ -6,6 +6,9 @@ CONSTANTS
   AutoOpts <- AutoNone
   RVs <- RVremove
   UnsubModes = {"handler", "handlerT", "eid", "eidT", "pair"}
+  BulkModes = {}
+  BulkLens = {}
+  WithClear = FALSE
   Forms = {"inst"}
   NoErrs = {FALSE}
   RaiseTypes <- TAB
